@@ -118,7 +118,8 @@ static void exec_op(const Plan &p, const Op &o, TaskState &ts, TaskObs &ob) {
 
 // ----------------------------------------------------------------------------- scheduler and monitors
 struct Task { int id; ucontext_t ctx; const Plan *plan; TaskState st; bool done = false; uint64_t accesses = 0; uint32_t quantum = 0; uint8_t *stack_lo, *stack_hi;
-              int h_fail = 0, h_allocs = 0; };    // the allocation-failure fault is attached to an operation of ONE task: its counters travel with the task
+              int h_fail = 0, h_allocs = 0;
+              std::vector<uint8_t> tls; };        // this simulated thread's copy of the image's thread-local storage    // the allocation-failure fault is attached to an operation of ONE task: its counters travel with the task
 static std::vector<Task> g_tasks; static Task *g_cur = nullptr;
 static ucontext_t g_sched_ctx;
 static const size_t TSTACK = 1u << 20;
@@ -181,7 +182,7 @@ static void thr_mem(void *addr, unsigned size, int wr, void *pc) {
     }
     ++t->accesses;
     uint8_t *a = (uint8_t *)addr;
-    if (!(a >= t->stack_lo && a < t->stack_hi)) record_access(t, (uintptr_t)addr, size ? size : 1, wr, pc);
+    if (!(a >= t->stack_lo && a < t->stack_hi) && !in_exe_tls(a)) record_access(t, (uintptr_t)addr, size ? size : 1, wr, pc);   // stack and thread-local storage are private to the task
     if (t->quantum && --t->quantum == 0) { swapcontext(&t->ctx, &g_sched_ctx); }
 }
 
@@ -242,6 +243,7 @@ static ThrOutcome simulate(const ThrRun &R) {
     g_in_lib = 1;
     for (size_t t = 0; t < T; ++t) {
         EventLog lg; g_heap.begin_run(0x11, Rng(7), nullptr); g_heap.forced_placement = PLACE_A32;
+        exe_tls_reset();
         std::vector<TaskState> one; alloc_handles(R, one, sh);
         for (size_t i = 0; i < R.setup.ops.size(); ++i) exec_op(R.setup, R.setup.ops[i], sh, sh.obs[i]);
         for (size_t i = 0; i < R.tasks[t].ops.size(); ++i) exec_op(R.tasks[t], R.tasks[t].ops[i], one[t], one[t].obs[i]);
@@ -254,6 +256,7 @@ static ThrOutcome simulate(const ThrRun &R) {
     // ---- concurrent execution under the seeded scheduler
     phase = 1;
     g_heap.begin_run(0x11, Rng(7), nullptr); g_heap.forced_placement = PLACE_A32;
+    exe_tls_reset();
     std::vector<TaskState> sts; alloc_handles(R, sts, sh);
     for (size_t i = 0; i < R.setup.ops.size(); ++i) exec_op(R.setup, R.setup.ops[i], sh, sh.obs[i]);
     g_tasks.assign(T, Task());
@@ -263,6 +266,9 @@ static ThrOutcome simulate(const ThrRun &R) {
         getcontext(&k.ctx); k.ctx.uc_stack.ss_sp = k.stack_lo; k.ctx.uc_stack.ss_size = TSTACK; k.ctx.uc_link = &g_sched_ctx;
         makecontext(&k.ctx, task_entry, 0);
     }
+    // every simulated thread starts with the initial image of thread-local storage (a no-op while the library has none)
+    const bool tls_on = exe_tls().memsz != 0; std::vector<uint8_t> sched_tls;
+    if (tls_on) { exe_tls_save(sched_tls); exe_tls_reset(); for (size_t t = 0; t < T; ++t) exe_tls_save(g_tasks[t].tls); exe_tls_load(sched_tls); }
     Rng sr(R.sched_seed);
     static const uint32_t PDEN[] = {4, 32, 256};
     size_t seg_i = 0; int change_points = 1 + sr.below(3);
@@ -284,7 +290,9 @@ static ThrOutcome simulate(const ThrRun &R) {
         k.quantum = q; uint64_t before = k.accesses;
         g_cur = &k; ++g_switches;
         g_heap.fail_at = k.h_fail; g_heap.allocs_in_op = k.h_allocs;
+        if (tls_on) { exe_tls_save(sched_tls); exe_tls_load(k.tls); }
         swapcontext(&g_sched_ctx, &k.ctx);
+        if (tls_on) { exe_tls_save(k.tls); exe_tls_load(sched_tls); }
         k.h_fail = g_heap.fail_at; k.h_allocs = g_heap.allocs_in_op; g_heap.fail_at = 0;
         g_cur = nullptr;
         uint32_t used = (uint32_t)(k.accesses - before);
